@@ -95,20 +95,25 @@ def report(ctx, stream, lines, crashes, dump):
 
 
 def race_reports(err):
-    """-> list of (key, text): one per DATA RACE block touching elk packages"""
+    """-> list of (key, text): one per DATA RACE block whose access stacks touch the elk module.
+    key = the innermost elk function of each of the two conflicting accesses (file:line is in the text;
+    function names survive unrelated edits of the files)"""
     out = []
     for blk in re.findall(r"WARNING: DATA RACE\n(.*?)\n={18}", err, re.S):
-        locs = re.findall(r"\n\s+(/\S+?/(?:elk|repo|wt-[\w-]+)/(\S+\.go):(\d+))", "\n" + blk)
-        # first elk frame of each access (the block lists: access 1 stack, access 2 stack, goroutine creation stacks)
-        parts = re.split(r"\n\n", blk)
-        firsts = []
-        for part in parts[:2]:
-            m = re.search(r"\n\s+\S*?/(?:repo|wt-[\w-]+)/(\S+\.go):(\d+)", "\n" + part)
-            if m:
-                firsts.append("%s:%s" % (m.group(1), m.group(2)))
-        if firsts:
-            out.append(("race:" + "+".join(sorted(set(firsts))), blk[:2500]))
+        k = race_key(blk)
+        if k:
+            out.append((k, blk[:2500]))
     return out
+
+
+def race_key(blk):
+    parts = re.split(r"\n\n", blk)
+    firsts = []
+    for part in parts[:2]:
+        m = re.search(r"^\s+github\.com/elk-language/elk/([\w./*()-]+?)(?:\[[^\n]*\])?(?:\.func\d+)*\(\)\n\s+(\S+\.go:\d+)", part, re.M)
+        if m:
+            firsts.append(m.group(1))
+    return ("race:" + "+".join(sorted(set(firsts)))) if firsts else None
 
 
 def run(ctx):
@@ -151,7 +156,7 @@ def run(ctx):
         hr = vlib.build_harness("c11", race=True)
         nr = 60
         lines_r, crashes_r, err_r, dump_r = run_harness(ctx, hr, nr, 1, ctx.sseed(RACE), "race", corpus,
-                                                       env_extra={"GORACE": "halt_on_error=0 history_size=3"}, timeout=12000)
+                                                       env_extra={"GORACE": "halt_on_error=0 exitcode=0 history_size=3"}, timeout=12000)
         ev_r, dist_r = report(ctx, RACE, lines_r, [c for c in crashes_r if "DATA RACE" not in c[1]], dump_r)
         reps_ = race_reports(err_r)
         seen = {}
